@@ -517,20 +517,32 @@ theorem listener_monitor_sound (n : Nat) (es : List LEv) (m' : LMon)
 
 /-! ## Non-vacuity -/
 
-/-- A reachable configuration with limit 1 in which one connection is accepted and unclosed and
-a second Accept is blocked at the semaphore (its only ready arm would be `<-l.done`). -/
-example : ∃ c, LReachable listen c ∧ openConns c = 1 ∧ c.n = 1 := by
-  have h0 := LReachable.init (S := listen) 1 2
-  have s1 : (LConfig.init listen 1 2).step listen 0 (.call .accept) = some _ := rfl
-  have h1 := LReachable.step h0 s1
-  have s2 := (rfl : LConfig.step listen _ 0 (.stmt 1) = some _)
-  have h2 := LReachable.step h1 s2
-  have s3 := (rfl : LConfig.step listen _ 0 (.stmt 1) = some _)
-  have h3 := LReachable.step h2 s3
-  have s4 := (rfl : LConfig.step listen _ 0 (.stmt 0) = some _)
-  have h4 := LReachable.step h3 s4
-  have s5 := (rfl : LConfig.step listen _ 0 (.stmt 0) = some _)
-  have h5 := LReachable.step h4 s5
-  exact ⟨_, h5, rfl, rfl⟩
+def runSteps (c : LConfig) : List (Nat × LAct) → Option LConfig
+  | [] => some c
+  | (i, a) :: r => match c.step listen i a with
+    | some c' => runSteps c' r
+    | none => none
+
+theorem reachable_runSteps {c c' : LConfig} (steps : List (Nat × LAct)) (h : LReachable listen c)
+    (hr : runSteps c steps = some c') : LReachable listen c' := by
+  induction steps generalizing c with
+  | nil => simp [runSteps] at hr; subst hr; exact h
+  | cons s r ih =>
+    obtain ⟨i, a⟩ := s
+    simp only [runSteps] at hr
+    split at hr
+    · rename_i c1 hs; exact ih (LReachable.step h hs) hr
+    · simp at hr
+
+/-- A reachable configuration with limit 1 in which one connection is accepted and unclosed
+(goroutine 0 called Accept: acquire, wrapped Accept, return) and goroutine 1 has called Accept and
+now sits at the `acquire` select with the semaphore full. -/
+def demoSteps : List (Nat × LAct) :=
+  [(0, .call .accept), (0, .stmt 1), (0, .stmt 1), (0, .stmt 0), (0, .stmt 0), (1, .call .accept)]
+
+example : ∃ c, LReachable listen c ∧ openConns c = 1 ∧ c.n = 1 ∧ (c.σ .sem).len = 1 := by
+  have hs : (runSteps (LConfig.init listen 1 2) demoSteps).isSome = true := by rfl
+  refine ⟨(runSteps (LConfig.init listen 1 2) demoSteps).get hs, ?_, by rfl, by rfl, by rfl⟩
+  exact reachable_runSteps demoSteps (LReachable.init 1 2) (Option.some_get hs).symm
 
 end NetVerif.Proofs.C58
